@@ -25,13 +25,15 @@ def check(ctx):
 def late_bound_loop_lambdas(ctx, root):
     """lambdas created inside a for loop of `root` or its private steps that escape the iteration (stored in a container, yielded, returned) and read a
     loop variable as a free variable: python resolves it at call time.  -> [(site, [names])]"""
-    import ast as _ast
     from ..lib import private_closure
+    fns = [ctx.M.funcs.get(q) for q in sorted(private_closure(ctx.M, set(root) if isinstance(root, (set, list, tuple)) else {root}))]
+    return late_bound_in([g for g in fns if g is not None])
+
+
+def late_bound_in(fns, with_yield=True):
+    import ast as _ast
     out = []
-    for q in sorted(private_closure(ctx.M, {root})):
-        g = ctx.M.funcs.get(q)
-        if g is None:
-            continue
+    for g in fns:
 
         def walk(node, loopvars, parent):
             if isinstance(node, (_ast.For, _ast.AsyncFor)):
@@ -42,6 +44,40 @@ def late_bound_loop_lambdas(ctx, root):
                     walk(ch, loopvars, node)
                 walk(node.iter, loopvars, node)
                 return
+            if isinstance(node, (_ast.ListComp, _ast.SetComp, _ast.DictComp)):
+                # an eager comprehension finishes before any of the callables it built can run: a lambda in its element that reads the comprehension variable
+                # (not frozen as a default) sees the LAST element, whoever calls it
+                cv = {n.id for g_ in node.generators for n in _ast.walk(g_.target) if isinstance(n, _ast.Name)}
+                elts = [node.elt] if not isinstance(node, _ast.DictComp) else [node.key, node.value]
+                for el in elts:
+                    for lam in _ast.walk(el):
+                        if isinstance(lam, _ast.Lambda):
+                            params = {a.arg for a in lam.args.args + lam.args.kwonlyargs + lam.args.posonlyargs}
+                            free = {n.id for n in _ast.walk(lam.body) if isinstance(n, _ast.Name) and isinstance(n.ctx, _ast.Load)} - params
+                            if free & cv:
+                                out.append((g.site(lam), sorted(free & cv), _ast.unparse(lam.body)))
+            if isinstance(node, _ast.Call) and isinstance(node.func, _ast.Attribute) and node.func.attr in ('append', 'add', 'insert', 'appendleft', 'put') and loopvars:
+                # a record / tuple holding the callable is stored: xs.append((asset, dollars, lambda: f(asset)))
+                def direct(x):
+                    if isinstance(x, _ast.Lambda):
+                        yield x
+                    elif isinstance(x, (_ast.Tuple, _ast.List, _ast.Set)):
+                        for y in x.elts:
+                            yield from direct(y)
+                    elif isinstance(x, _ast.Dict):
+                        for y in x.values:
+                            yield from direct(y)
+                    elif isinstance(x, _ast.Call) and isinstance(x.func, _ast.Name) and x.func.id[:1].isupper():
+                        for y in list(x.args) + [k.value for k in x.keywords]:
+                            yield from direct(y)          # a record constructor: Plan(asset, thunk)
+                for a_ in node.args:
+                    if isinstance(a_, _ast.Lambda):
+                        continue            # handled below (parent is this call)
+                    for lam in direct(a_):
+                        params = {p_.arg for p_ in lam.args.args + lam.args.kwonlyargs + lam.args.posonlyargs}
+                        free = {n.id for n in _ast.walk(lam.body) if isinstance(n, _ast.Name) and isinstance(n.ctx, _ast.Load)} - params
+                        if free & loopvars:
+                            out.append((g.site(lam), sorted(free & loopvars), _ast.unparse(lam.body)))
             if isinstance(node, _ast.Lambda) and loopvars:
                 params = {a.arg for a in node.args.args + node.args.kwonlyargs + node.args.posonlyargs}
                 if node.args.vararg:
@@ -50,7 +86,7 @@ def late_bound_loop_lambdas(ctx, root):
                     params.add(node.args.kwarg.arg)
                 free = {n.id for n in _ast.walk(node.body) if isinstance(n, _ast.Name) and isinstance(n.ctx, _ast.Load)} - params
                 escaping = (isinstance(parent, _ast.Call) and isinstance(parent.func, _ast.Attribute) and parent.func.attr in ('append', 'add', 'insert', 'appendleft', 'put', 'setdefault')
-                            and node in parent.args) or isinstance(parent, (_ast.Yield, _ast.Return)) or \
+                            and node in parent.args) or isinstance(parent, (_ast.Yield, _ast.Return) if with_yield else _ast.Return) or \
                     (isinstance(parent, _ast.Assign) and any(isinstance(t_, (_ast.Subscript, _ast.Attribute)) for t_ in parent.targets))
                 if escaping and free & loopvars:
                     out.append((g.site(node), sorted(free & loopvars), _ast.unparse(node.body)))
